@@ -243,6 +243,126 @@ def check_disaggregate(run, ir, fk, ck, start_serial, n, nvar, miss, method):
                 break
 
 
+# ------------------------------------------------------------------------------------------
+# arip: one KKT system; numpy.linalg.solve stubbed by its contract
+# ------------------------------------------------------------------------------------------
+
+_AGGVEC = {"sum": lambda n: [1.0] * n, "mean": lambda n: [1.0 / n] * n, "first": lambda n: [1.0] + [0.0] * (n - 1), "last": lambda n: [0.0] * (n - 1) + [1.0]}
+
+
+def _arip_run(ir, low_k, high_k, nlow, aggregation, target_pos, values=None, lifted=True):
+    """returns (x symbols dict, target symbols dict, high cells list, contract list)"""
+    from irispie.series import arip as ar, _conversions as cv
+    start = _period(ir, low_k, 2020 * FREQ[low_k])
+    nw = FREQ[high_k] // FREQ[low_k]
+    contract = []
+    syms, tsyms, target = {}, {}, None
+    n_high = nlow * nw
+    hstart = _period(ir, high_k, 2020 * FREQ[high_k])
+    tmiss = tuple(i for i in range(n_high) if i != target_pos)
+    if not lifted:
+        x = float_series(ir, start, nlow, 1, (), "y", values)
+        if target_pos is not None:
+            target = float_series(ir, hstart, n_high, 1, tmiss, "t", values)
+
+    def solve_stub(F, C):
+        Fg = np.asarray(F, dtype=float)
+        Co = np.asarray(C, dtype=object)
+        z = np.empty(Co.shape, dtype=object)
+        for idx in np.ndindex(*Co.shape):
+            z[idx] = S.sym(f"z{len(contract)}_" + "_".join(map(str, idx)), 1)
+        prod = Fg.astype(object) @ z
+        for idx in np.ndindex(*Co.shape):
+            contract.append(S.const(prod[idx]).t == S.const(Co[idx]).t)
+        return z
+    if not lifted:
+        h = ir.disaggregate(x, _freq(ir, high_k), method="arip", model=("diff", aggregation), target=target)
+        return x, target, h, None
+    la = npproxy.SubProxy(np.linalg, {"solve": solve_stub})
+    proxy = npproxy.Proxy(linalg=la)
+    mods = series_modules()
+    conv = lambda diff, f, t: diff * (float(f) / float(t))          # convert_diff without its float() coercion
+    with npproxy.installed(proxy, *mods, extra=[(cv, "convert_diff", conv)]), S.Path() as path:
+        x, syms = tagged(ir, start, nlow, 1, (), "y", values=values)
+        if target_pos is not None:
+            target, tsyms = tagged(ir, hstart, n_high, 1, tmiss, "t", values=values)
+        h = ir.disaggregate(x, _freq(ir, high_k), method="arip", model=("diff", aggregation), target=target)
+    return syms, tsyms, h, contract + [path.condition()]
+
+
+def check_arip(run, ir, low_k, high_k, nlow, aggregation, target_pos):
+    key = f"arip:{low_k}->{high_k}:nlow={nlow}:diff/{aggregation}:target={target_pos}"
+    case = dict(kind="arip", low=low_k, high=high_k, nlow=nlow, aggregation=aggregation, target_pos=target_pos)
+    finding = f"arip:{aggregation}"
+    syms, tsyms, h, contract = _arip_run(ir, low_k, high_k, nlow, aggregation, target_pos)
+    nw = FREQ[high_k] // FREQ[low_k]
+    n = nlow * nw
+    hc = cellmap(h)
+    s0 = 2020 * FREQ[high_k]
+    xs = [hc.get((s0 + i, 0)) for i in range(n)]
+    if any(v is None for v in xs):
+        run.counterexample(key, finding, "arip output has missing cells", dict(case, values={}))
+        return
+    ys = [syms[f"y{i}v0"][2] for i in range(nlow)]
+    vec = _AGGVEC[aggregation](nw)
+    A = np.zeros((nlow, n))
+    for i in range(nlow):
+        A[i, nw * i:nw * i + nw] = vec
+    rows = [A[i] for i in range(nlow)]
+    tol = Fraction(1, 10 ** 8)
+    claims = []
+    full_target_low = set()
+    for i in range(nlow):
+        claims.append((f"aggregation constraint {i}", sum(S.float_fraction(A[i, j]) * xs[j] for j in range(n) if A[i, j] != 0), ys[i]))
+    if target_pos is not None:
+        tsym = tsyms[f"t{target_pos}v0"][2]
+        claims.append((f"target {target_pos}", xs[target_pos], tsym))
+        T = np.zeros((1, n)); T[0, target_pos] = 1
+        rows.append(T[0])
+    # optimality of the documented criterion sum_t (x_t - x_{t-1} - c)^2: gradient orthogonal to every feasible direction
+    c = (ys[-1] - ys[0]) / (nlow - 1) * (FREQ[low_k] / FREQ[high_k]) if nlow > 1 else S.const(0)
+    K = np.zeros((n - 1, n))
+    for i in range(n - 1):
+        K[i, i + 1], K[i, i] = 1.0, -1.0
+    G = K.T @ K
+    grad = []
+    for i in range(n):
+        g = sum(S.float_fraction(G[i, j]) * xs[j] for j in range(n) if G[i, j] != 0)
+        kc = sum(K[r, i] for r in range(n - 1))
+        grad.append(g - S.float_fraction(kc) * c)
+    R = np.vstack(rows)
+    u, sv, vt = np.linalg.svd(R)
+    rank = int((sv > 1e-10).sum())
+    null = vt[rank:]
+    for k, d in enumerate(null):
+        claims.append((f"optimality direction {k}", sum(S.float_fraction(float(d[i])) * grad[i] for i in range(n)), S.const(0)))
+    allsyms = {nm: v[2] for nm, v in list(syms.items()) + list(tsyms.items())}
+    box = [z3.And(s.t >= -1, s.t <= 1) for s in allsyms.values()]
+    r0, _ = run.check_sat(box + contract, timeout_ms=30000)
+    if r0 != "sat":
+        run.unknown(key, f"reachability witness {r0}")
+        return
+    run.reach_ok += 1
+    viol = z3.Or(*[z3.Or(S.const(a - b).t > tol, S.const(a - b).t < -tol) for _, a, b in claims])
+    r, mdl = run.check_sat(box + contract + [viol], timeout_ms=120000)
+    if r == "unsat":
+        if len(run.samples) < 12:
+            run.samples.append({"obligation": key, "verdict": "unsat: constraints/targets met and gradient orthogonal to all feasible directions for all data in the unit box",
+                                "claims": [c_[0] for c_ in claims][:8], "contract_equations": len(contract) - 1})
+        run.ok(key)
+    elif r == "sat":
+        bad = []
+        for labl, a, b in claims:
+            dv = mdl.eval(S.const(a - b).t, model_completion=True)
+            fv = Fraction(dv.numerator_as_long(), dv.denominator_as_long())
+            if abs(fv) > tol:
+                bad.append((labl, float(fv)))
+        vals = model_values(mdl, sorted(allsyms))
+        run.counterexample(key, finding, f"arip output violates {bad[:3]}", dict(case, bad=bad[:5], values={n_: [v.numerator, v.denominator] for n_, v in vals.items()}))
+    else:
+        run.unknown(key, f"solver {r}")
+
+
 def main(run):
     ir = load_irispie()
     mods = series_modules()
@@ -259,7 +379,9 @@ def main(run):
                   "Series.set_data(dates, None) on object data executed as NaN (numpy float semantics)"]
     run.assumptions += ["min/max: every feasible ordering of the member values is explored (DART) and decided under its path condition",
                         "calendar membership oracle: own integer arithmetic (regular: serial // factor; daily: loop-free Gregorian calendar validated against datetime)"]
-    run.outside += ["geometric_mean", "disaggregation to daily frequency", "arip (see level_note)", "weekly frequency", "min/max with missing members (unspecified)"]
+    run.functions_encoded.append("series.arip.{disaggregate_arip,disaggregate_arip_data,_create_basic_system_matrices,_DiffForm,_get_first_last_observations,_create_*}")
+    run.stubs += ["numpy.linalg.solve in arip -> fresh symbols z with the contract F z = C", "_conversions.convert_diff without its float() coercion"]
+    run.outside += ["geometric_mean", "disaggregation to daily frequency", "arip 'rate' form (data-dependent rho makes the KKT matrix symbolic)", "weekly frequency", "min/max with missing members (unspecified)"]
     n_cal = calstub.validate(step=97)
     run.extra["calendar_stub_validation"] = {"ordinals_compared_with_datetime": n_cal}
     proxy = npproxy.Proxy()
@@ -288,11 +410,59 @@ def main(run):
                         run.unknown(f"disaggregate:{ck}->{fk}:{method}", exc)
                     except Exception as exc:
                         run.error(f"disaggregate:{ck}->{fk}:{cs0}:{method}", exc)
+    for (low_k, high_k) in (("Y", "Q"),) + ((("Q", "M"), ("Y", "H")) if run.tier == "thorough" else ()):
+        for nlow in ((3,) if run.tier == "quick" else (2, 3, 4)):
+            for aggregation in ("sum", "mean", "first", "last"):
+                for target_pos in ((None, 5) if run.tier == "quick" else (None, 1, 5)):
+                    if target_pos is not None and target_pos >= nlow * (FREQ[high_k] // FREQ[low_k]):
+                        continue
+                    try:
+                        check_arip(run, ir, low_k, high_k, nlow, aggregation, target_pos)
+                    except S.SymbolicBranchError as exc:
+                        run.unknown(f"arip:{low_k}->{high_k}:{nlow}:{aggregation}:{target_pos}", exc)
+                    except Exception as exc:
+                        run.error(f"arip:{low_k}->{high_k}:{nlow}:{aggregation}:{target_pos}", exc)
     run.extra["exhaustive"] = True
+
+
+def _replay_arip(ir, case):
+    low_k, high_k, nlow, aggregation, target_pos = case["low"], case["high"], case["nlow"], case["aggregation"], case["target_pos"]
+    vals = {k: float(Fraction(a, b)) for k, (a, b) in case.get("values", {}).items()}
+    nw = FREQ[high_k] // FREQ[low_k]
+    n = nlow * nw
+    for i in range(nlow):
+        vals.setdefault(f"y{i}v0", 0.5 + 0.3 * ((i * 3) % 4))
+    for i in range(n):
+        vals.setdefault(f"t{i}v0", 0.2)
+    x, target, h, _ = _arip_run(ir, low_k, high_k, nlow, aggregation, target_pos, values=vals, lifted=False)
+    d = h.get_data().flatten()
+    y = np.array([vals[f"y{i}v0"] for i in range(nlow)])
+    vec = _AGGVEC[aggregation](nw)
+    A = np.zeros((nlow, n))
+    for i in range(nlow):
+        A[i, nw * i:nw * i + nw] = vec
+    rows, rhs = [A[i] for i in range(nlow)], list(y)
+    if target_pos is not None:
+        T = np.zeros(n); T[target_pos] = 1
+        rows.append(T); rhs.append(vals[f"t{target_pos}v0"])
+    R, rhs = np.vstack(rows), np.array(rhs)
+    if np.abs(R @ d - rhs).max() > 1e-7:
+        return True, f"constraints violated by {np.abs(R @ d - rhs).max()!r}"
+    c = (y[-1] - y[0]) / (nlow - 1) * (FREQ[low_k] / FREQ[high_k]) if nlow > 1 else 0.0
+    K = np.zeros((n - 1, n))
+    for i in range(n - 1):
+        K[i, i + 1], K[i, i] = 1.0, -1.0
+    obj = lambda v: float(np.sum((K @ v - c) ** 2))
+    KK = np.block([[K.T @ K, R.T], [R, np.zeros((R.shape[0], R.shape[0]))]])
+    sol = np.linalg.lstsq(KK, np.concatenate([K.T @ (c * np.ones(n - 1)), rhs]), rcond=None)[0][:n]
+    gap = obj(d) - obj(sol)
+    return gap > 1e-7 * (1 + obj(sol)), f"smoothness criterion {obj(d)!r} vs constrained optimum {obj(sol)!r}"
 
 
 def replay(case):
     ir = load_irispie()
+    if case["kind"] == "arip":
+        return _replay_arip(ir, case)
     fk, ck, n, nvar, miss = case["fk"], case["ck"], case["n"], case["nvar"], tuple(case["miss"])
     vals = {k: float(Fraction(a, b)) for k, (a, b) in case.get("values", {}).items()}
     for i in range(n):
